@@ -81,10 +81,20 @@ def make_dispatcher(kind, execs):
         return {'a': a, 'b': b}
 
     d = AsyncDispatcher() if is_async else Dispatcher()
-    for beh in ('echo', 'typed', 'typednull', 'unreg', 'exc', 'typedsrv', 'unregsrv', '_echo'):
+    for k, beh in enumerate(('echo', 'typed', 'typednull', 'unreg', 'exc', 'typedsrv', 'unregsrv', '_echo')):
         if coro:
             async def m(a=None, b=None, _beh=beh):
                 return body(_beh, a, b)
+            if k % 2 == 0:
+                # every second coroutine method sits behind an ordinary decorator: a plain function that returns the coroutine
+                import functools
+
+                def plain(f):
+                    @functools.wraps(f)
+                    def wrapper(*args, **kwargs):
+                        return f(*args, **kwargs)
+                    return wrapper
+                m = plain(m)
         else:
             def m(a=None, b=None, _beh=beh):
                 return body(_beh, a, b)
